@@ -46,7 +46,8 @@ def instances(tier):
 TEXT = ("Bounded model checking of the real pixman-matrix.c against a 128-bit integer oracle: pixman's internal assertions are "
         "unreachable for every matrix/vector (never aborts); transform_point (affine), point_3d and multiply return the exact "
         "product rounded to nearest or FALSE exactly when unrepresentable, for every value of one operand with the other operand "
-        "taken from a stated menu of concrete matrices/vectors; the 128/49-bit divider rounds to nearest for menu divisors.")
+        "taken from a stated menu of concrete matrices/vectors; the 128/49-bit divider rounds to nearest for menu divisors; transform_point with a vector whose w is not 1 (menu of w values, x/y symbolic, "
+        "bottom row 0 0 1) returns (M v)/w rounded to nearest, FALSE iff w == 0 or unrepresentable.")
 NOTE = ("SAT cannot decide 32x32-bit multiplier equivalence with both operands symbolic (probes: >400 s on every back end, also "
         "with 4-bit mantissas), so one operand of each product is concrete per instance (menus in harness/C11/matrix.c). The oracle "
         "writes m*v as m*(65536*floor(v/65536)) + m*(v mod 65536) (distributive law; trusted identity). invert accuracy and "
